@@ -8,7 +8,7 @@ import (
 // CNFLayout holds the layout knobs of the DIMACS writer (zero value = conventional layout:
 // "p cnf V C", one clause per line, single blanks, final newline).
 type CNFLayout struct {
-	CommentsBefore int      `json:"comments_before,omitempty"` // comment lines before the header
+	CommentsBefore int      `json:"comments_before,omitempty"`  // comment lines before the header
 	CommentNoSpace bool     `json:"comment_no_space,omitempty"` // "cfoo" instead of "c foo"
 	HeaderSpacing  int      `json:"header_spacing,omitempty"`   // 0 single blanks, 1 several blanks, 2 tabs
 	LitSeps        []string `json:"lit_seps,omitempty"`         // cyclic pattern of separators between the tokens of a clause
